@@ -346,6 +346,9 @@ pub fn run_case(rig: &mut dyn Rig, c: &Case) -> Result<&'static str, Failure> {
 }
 
 pub fn replay(case: &Value, _kf: &KnownFindings) -> Result<(), Failure> {
+    if case["kind"] == "rxfetch-mac" {
+        return super::c18_mac::replay(case);
+    }
     let Some(c) = Case::from_json(case) else {
         return Err(Failure::new("bad-replay", case.clone(), "not a C18 case"));
     };
@@ -390,7 +393,7 @@ pub fn run(ctx: &mut Ctx) {
     // the quick tier takes 3 of the status bytes and 2 of the interrupt-flag sets: only thorough covers the stated space
     ctx.exhaustive = full;
     ctx.rule = format!(
-        "(VERIF_SEED does not influence this check: every case is enumerated) exhaustive enumeration on chip doubles (SX1262, SX1276, SX1272) whose 256-byte buffer/FIFO holds a position-dependent pattern and wraps: explicit header: every reported length 0..=255 x every offset 0..=255 x caller buffer sizes {{0,1,12,64,255,256}} x {{status bytes (SX126x), kind path}} / {{interrupt-flag sets x Single/Continuous, LoRa::rx and get_rx_result}} / {{LorawanRadio::rx_single, rx_continuous}}; implicit header (kind and LoRa paths): every configured length 0..=255 x every offset x the 6 buffer sizes x decoy reported lengths {{0, 255, configured+1}}. {} One evaluation = one fetch into a canary-filled buffer. Non-trivial (distinct by construction): effective length > buffer, or offset+length > 256 (wrap), or length 0, or an error status / CRC-error / no-RxDone interrupt set",
+        "(VERIF_SEED does not influence this check: every case is enumerated) exhaustive enumeration on chip doubles (SX1262, SX1276, SX1272) whose 256-byte buffer/FIFO holds a position-dependent pattern and wraps: explicit header: every reported length 0..=255 x every offset 0..=255 x caller buffer sizes {{0,1,12,64,255,256}} x {{status bytes (SX126x), kind path}} / {{interrupt-flag sets x Single/Continuous, LoRa::rx and get_rx_result}} / {{LorawanRadio::rx_single, rx_continuous}}; implicit header (kind and LoRa paths): every configured length 0..=255 x every offset x the 6 buffer sizes x decoy reported lengths {{0, 255, configured+1}}. {} HAND-OVER to the MAC: authentic downlinks (reference codec) of 13..=255 bytes reported by the chip double at several offsets (incl. wrap-around) in RX1 of a real async_device::Device on top of LorawanRadio with radio buffers of 64, 255 and 256 bytes; a frame that fits must be delivered with exactly the plaintext that was sent, a longer one must give an error or no downlink. One evaluation = one fetch into a canary-filled buffer (or one such uplink+downlink transaction). Non-trivial (distinct by construction): effective length > buffer, or offset+length > 256 (wrap), or length 0, or an error status / CRC-error / no-RxDone interrupt set",
         if full { "thorough: 12 status bytes (all 8 command-status values), 5 interrupt-flag sets." } else { "quick: 3 status bytes (good, execution failure, timeout), 2 interrupt-flag sets." }
     );
     ctx.assumptions = vec![
@@ -486,4 +489,6 @@ pub fn run(ctx: &mut Ctx) {
             }
         }
     });
+    // the last hop: LorawanRadio -> the device's radio buffer -> MAC
+    super::c18_mac::run(ctx);
 }
